@@ -190,6 +190,7 @@ func runProp(spec *PropSpec, tier, mutant string, noMut bool) (code int) {
 		runRound18(c, spec)
 		runRound19(c, spec)
 		runRound20(c, spec)
+		runRound21(c, spec)
 		if c.Whole && spec.Thorough != nil {
 			spec.Thorough(c)
 		}
